@@ -794,7 +794,7 @@ static void DecodeWORD(Word Code) {
 
     UNUSED(Code);
 
-    if (ChkArgCnt(1, ArgCntMax)) {
+    if (ChkArgCnt(1, ArgCntMax) && SetMaxCodeLenForArgs()) {
         z  = 1;
         OK = True;
         do {
@@ -816,7 +816,7 @@ static void DecodeFLOAT(Word DestLen) {
     Boolean OK;
     double  FVal;
 
-    if (ChkArgCnt(1, ArgCntMax)) {
+    if (ChkArgCnt(1, ArgCntMax) && SetMaxCodeLenForArgs()) {
         z  = 1;
         OK = True;
         do {
